@@ -14,7 +14,7 @@ PROPS: dict[str, dict] = {
     "C05": {"modules": ["vf.h_fail", "vf.h_shm", "vf.h_stack", "vf.h_shmclient"], "harnesses": ["shm-atexit", "fail-healthcheck", "fail-executor-loop", "fail-task-body", "fail-bridge-events", "fail-controller-run", "fullstack-C05", "shm-client-roundtrip"]},
     "C07": {"modules": ["vf.h_xfer", "vf.h_shmclient", "vf.h_comms"], "harnesses": ["data-transfers", "shm-client-roundtrip", "payload-roundtrip"]},
     "C06": {"modules": ["vf.h_comms"], "harnesses": ["ack-messaging", "retry-budget-step", "retry-when-busy", "dedup-permanent", "frame-sequences"]},
-    "C11": {"modules": ["vf.h_xform"], "harnesses": ["xform-copy-rename", "xform-dedup-fuse", "xform-split-expand", "xform-symnames", "xform-cutnames", "xform-expand-single"]},
+    "C11": {"modules": ["vf.h_xform"], "harnesses": ["xform-copy-rename", "xform-dedup-fuse", "xform-split-expand", "xform-symnames", "xform-cutnames", "xform-split-ancestry", "xform-expand-single"]},
     "C14": {"modules": ["vf.h_names"], "harnesses": ["fluent-names", "fluent-operands"]},
     "C13": {"modules": ["vf.h_fluent"], "harnesses": ["fluent-symreal"]},
     "C15": {"modules": ["vf.h_backends"], "harnesses": ["backends-symreal"]},
